@@ -13,10 +13,12 @@ import (
 	"github.com/IrineSistiana/mosdns/v5/plugin/executable/drop_resp"
 	"github.com/IrineSistiana/mosdns/v5/plugin/executable/ecs_handler"
 	fastforward "github.com/IrineSistiana/mosdns/v5/plugin/executable/forward"
+	_ "github.com/IrineSistiana/mosdns/v5/plugin/executable/dual_selector"
 	_ "github.com/IrineSistiana/mosdns/v5/plugin/executable/forward_edns0opt"
 	"github.com/IrineSistiana/mosdns/v5/plugin/executable/hosts"
 	"github.com/IrineSistiana/mosdns/v5/plugin/executable/redirect"
 	"github.com/IrineSistiana/mosdns/v5/plugin/executable/sequence"
+	"github.com/IrineSistiana/mosdns/v5/plugin/executable/sequence/fallback"
 	"github.com/IrineSistiana/mosdns/v5/plugin/executable/ttl"
 	_ "github.com/IrineSistiana/mosdns/v5/plugin/matcher/has_resp"
 	_ "github.com/IrineSistiana/mosdns/v5/plugin/matcher/qtype"
@@ -44,7 +46,7 @@ type ZoneRR struct {
 type RedirectRule struct{ Pattern, Target string }
 
 type XDesc struct {
-	Kind     string // hosts black_hole arbitrary ttl forward drop_resp
+	Kind     string // hosts black_hole arbitrary ttl forward drop_resp fallback
 	Hosts    []HostEntry
 	V4       []uint32
 	V6       []uint16
@@ -52,10 +54,13 @@ type XDesc struct {
 	Fix      uint32
 	Min, Max uint32
 	Up       int
+	Prim     int  // fallback: name of the primary sequence
+	Sec      int  // fallback: name of the secondary sequence
+	Standby  bool // fallback: always_standby
 }
 
 type WDesc struct {
-	Kind   string // cache redirect ecs fwdopt
+	Kind   string // cache redirect ecs fwdopt dual
 	Rules  []RedirectRule
 	Fwd    bool
 	Send   bool
@@ -63,6 +68,7 @@ type WDesc struct {
 	Mask4  int
 	Mask6  int
 	Codes  []int
+	V6     bool // dual: prefer_ipv6
 }
 
 func v4List(xs []uint32) string { return hx.NList(xs) }
@@ -120,6 +126,8 @@ func (d XDesc) Coq() string {
 		return fmt.Sprintf("(DTtl %d %d %d)", d.Fix, d.Min, d.Max)
 	case "forward":
 		return fmt.Sprintf("(DForward %d)", d.Up)
+	case "fallback":
+		return fmt.Sprintf("(DFallback %d %d %s)", d.Prim, d.Sec, hx.Bool(d.Standby))
 	}
 	return "DDropResp"
 }
@@ -140,6 +148,9 @@ func (d WDesc) Coq(idx int) string {
 			p = hx.Some(AddrCoq(netip.MustParseAddr(d.Preset)))
 		}
 		return fmt.Sprintf("(DEcs %s %s %s %d %d)", hx.Bool(d.Fwd), hx.Bool(d.Send), p, d.Mask4, d.Mask6)
+	}
+	if d.Kind == "dual" {
+		return fmt.Sprintf("(DDual %d %s)", idx, hx.Bool(d.V6))
 	}
 	return "(DFwdOpt " + hx.NList(d.Codes) + ")"
 }
@@ -303,6 +314,11 @@ func quickX(d XDesc) string {
 
 func quickW(d WDesc) string {
 	switch d.Kind {
+	case "dual":
+		if d.V6 {
+			return "prefer_ipv6"
+		}
+		return "prefer_ipv4"
 	case "fwdopt":
 		s := make([]string, len(d.Codes))
 		for i, c := range d.Codes {
@@ -343,6 +359,9 @@ func Build(r *hx.RNG, xs []XDesc, ws []WDesc, scripts [][]Template, ss []TSeq, r
 	b := &Built{}
 	ps := map[string]any{}
 	for i, d := range xs {
+		if d.Kind == "fallback" {
+			continue // built when the sequence that uses it is built: its sub-sequences exist by then
+		}
 		p, err := buildX(d, rec, scripts)
 		if err != nil {
 			return nil, fmt.Errorf("x%d: %w", i, err)
@@ -364,6 +383,24 @@ func Build(r *hx.RNG, xs []XDesc, ws []WDesc, scripts [][]Template, ss []TSeq, r
 	m := coremain.NewTestMosdnsWithPlugins(ps)
 	for _, s := range ss {
 		ra := make([]sequence.RuleArgs, len(s.Rules))
+		for _, t := range s.Rules {
+			if t.Kind != "exec" || xs[t.Arg].Kind != "fallback" {
+				continue
+			}
+			tag := "x" + strconv.Itoa(t.Arg)
+			if _, have := ps[tag]; have {
+				continue
+			}
+			d := xs[t.Arg]
+			p, err := fallback.Init(coremain.NewBP(tag, m), &fallback.Args{
+				Primary: "s" + strconv.Itoa(d.Prim), Secondary: "s" + strconv.Itoa(d.Sec),
+				Threshold: 60000, AlwaysStandby: d.Standby})
+			if err != nil {
+				b.Close()
+				return nil, fmt.Errorf("fallback %s: %w", tag, err)
+			}
+			ps[tag] = p
+		}
 		for j, t := range s.Rules {
 			for _, mt := range t.Ms {
 				ra[j].Matches = append(ra[j].Matches, renderMatch(mt))
@@ -401,6 +438,7 @@ func Build(r *hx.RNG, xs []XDesc, ws []WDesc, scripts [][]Template, ss []TSeq, r
 			return nil, fmt.Errorf("sequence s%d: %w", s.Name, err)
 		}
 		ps["s"+strconv.Itoa(s.Name)] = seq
+		b.closers = append(b.closers, func() { _ = seq.Close() })
 		b.Entry = seq
 	}
 	return b, nil
